@@ -257,11 +257,29 @@ def _code(task):
     return 14
 
 
+def _inner(obj, cls):
+    """the attribute of obj (whatever its private name) that is an instance of cls"""
+    names = [n for k in type(obj).__mro__ for n in getattr(k, "__slots__", ())] + list(getattr(obj, "__dict__", {}))
+    for name in names:
+        for cand in (name, *(f"_{k.__name__}{name}" for k in type(obj).__mro__ if name.startswith("__"))):
+            try:
+                v = getattr(obj, cand)
+            except AttributeError:
+                continue
+            if isinstance(v, cls):
+                return v
+    raise AttributeError(f"no {cls.__name__} inside {type(obj).__name__}")
+
+
+PATH_NAMES = {0: "backend.wrap_stream_socket / create_datagram_endpoint", 1: "listener AcceptedSocketFactory.connect"}
+PATHS = {1: (0, 1), 2: (0, 1), 3: (0,), 4: (0,)}      # the construction paths of the backend for each adapter kind
+
+
 class Session:
-    def __init__(self, loop, kind, ntasks):
+    def __init__(self, loop, kind, ntasks, path=0):
         from easynetwork.lowlevel.api_async.backend._asyncio._flow_control import WriteFlowControl
 
-        self.loop, self.kind, self.n = loop, kind, ntasks
+        self.loop, self.kind, self.n, self.path = loop, kind, ntasks, path
         self.tasks = [None] * ntasks
         self.snaps = []
         self.returns = []       # (task, bytes of that task not yet taken by the kernel) at each normal return of a send
@@ -277,42 +295,43 @@ class Session:
         from easynetwork.lowlevel.api_async.backend._asyncio.backend import AsyncIOBackend
 
         backend = AsyncIOBackend()
+        # the adapters are obtained the way the backend obtains them (every construction path), on the scripted socket
         if kind in (K_SEND_ALL, K_SEND_ITER):
-            from easynetwork.lowlevel.api_async.backend._asyncio.stream.socket import (
-                AsyncioTransportStreamSocketAdapter,
-                StreamReaderBufferedProtocol,
-            )
-
             self.sock = FakeSock(_socket.SOCK_STREAM)
-            self.protocol = StreamReaderBufferedProtocol(loop=loop)
-            self.transport = loop._make_socket_transport(self.sock, self.protocol)
+            if path == 0:
+                self.adapter = loop.run_until_complete(backend.wrap_stream_socket(self.sock))
+            else:
+                from easynetwork.lowlevel.api_async.backend._asyncio.stream.listener import AcceptedSocketFactory
+
+                self.adapter = loop.run_until_complete(AcceptedSocketFactory().connect(backend, self.sock))
+            self.transport = _inner(self.adapter, asyncio.BaseTransport)
+            self.protocol = _inner(self.adapter, asyncio.BaseProtocol)
             self.settle()
-            self.adapter = AsyncioTransportStreamSocketAdapter(backend, self.transport, self.protocol)
             if kind == K_SEND_ALL:
                 self.send = self.adapter.send_all
             else:
                 self.send = lambda data: self.adapter.send_all_from_iterable([data])
         elif kind == K_DGRAM_EP:
-            from easynetwork.lowlevel.api_async.backend._asyncio.datagram.endpoint import DatagramEndpoint, DatagramEndpointProtocol
+            from easynetwork.lowlevel.api_async.backend._asyncio.datagram.endpoint import create_datagram_endpoint
 
             self.sock = FakeSock(_socket.SOCK_DGRAM)
-            rq, eq = asyncio.Queue(), asyncio.Queue()
-            self.protocol = DatagramEndpointProtocol(loop=loop, recv_queue=rq, exception_queue=eq)
-            self.transport = loop._make_datagram_transport(self.sock, self.protocol, None)
+            self.adapter = loop.run_until_complete(create_datagram_endpoint(sock=self.sock))
+            self.transport = _inner(self.adapter, asyncio.BaseTransport)
+            self.protocol = _inner(self.adapter, asyncio.BaseProtocol)
             self.settle()
-            self.adapter = DatagramEndpoint(self.transport, self.protocol, recv_queue=rq, exception_queue=eq)
             self.send = lambda data: self.adapter.sendto(data, "/peer")
         elif kind == K_DGRAM_LISTENER:
+            # (AsyncIOBackend.create_udp_listeners binds real sockets, then does exactly this for each of them)
             from easynetwork.lowlevel.api_async.backend._asyncio.datagram.listener import (
                 DatagramListenerProtocol,
                 DatagramListenerSocketAdapter,
             )
 
             self.sock = FakeSock(_socket.SOCK_DGRAM)
-            self.protocol = DatagramListenerProtocol(loop=loop)
-            self.transport = loop._make_datagram_transport(self.sock, self.protocol, None)
-            self.settle()
+            self.transport, self.protocol = loop.run_until_complete(
+                loop.create_datagram_endpoint(lambda: DatagramListenerProtocol(loop=loop), sock=self.sock))
             self.adapter = DatagramListenerSocketAdapter(backend, self.transport, self.protocol)
+            self.settle()
             self.send = lambda data: self.adapter.send_to(data, "/peer")
         else:
             raise ValueError(kind)
@@ -469,9 +488,9 @@ class Session:
                 task.exception()
 
 
-def execute(kind, ntasks, actions, epilogue=False):
+def execute(kind, ntasks, actions, epilogue=False, path=0):
     with running() as loop:
-        s = Session(loop, kind, ntasks)
+        s = Session(loop, kind, ntasks, path)
         try:
             for a in actions:
                 s.act(a)
@@ -513,20 +532,24 @@ def deque_observable():
 
 
 
-def config_of(kind):
-    if kind not in _CFG:
+def config_of(kind, path=0):
+    if (kind, path) not in _CFG:
         with running() as loop:
-            s = Session(loop, kind, 1)
+            s = Session(loop, kind, 1, path)
             try:
-                _CFG[kind] = s.config()
+                _CFG[(kind, path)] = s.config()
             finally:
                 s.finish()
-    return _CFG[kind]
+    return _CFG[(kind, path)]
+
+
+def _path(inp):
+    return inp[5] if len(inp) > 5 else 0
 
 
 def run_impl(inp):
     kind, _cfg, ntasks, actions = inp[0], inp[1], inp[2], inp[3]
-    snaps, _returns, _ = execute(kind, ntasks, actions)
+    snaps, _returns, _ = execute(kind, ntasks, actions, path=_path(inp))
     return snaps
 
 
@@ -540,9 +563,9 @@ def oracle(inp):
     (b,c,d) once the peer reads again / the connection is lost nobody stays suspended, a sender the script did not
     cancel is not cancelled, errors only after a loss; the waiter deque ends empty."""
     kind, _cfg, ntasks, actions = inp[0], inp[1], inp[2], inp[3]
-    if _FOCUS is not None and kind not in _FOCUS:
+    if _FOCUS is not None and (kind, _path(inp)) not in _FOCUS:
         return None
-    snaps, returns, final = execute(kind, ntasks, actions, epilogue=True)
+    snaps, returns, final = execute(kind, ntasks, actions, epilogue=True, path=_path(inp))
     for t, unsent, bufsize in returns:
         if unsent > 0:
             return (f"{KIND_NAMES[kind]}: send of task {t} returned while {unsent} of its bytes were still in user space "
@@ -653,9 +676,8 @@ def _is_limits_zero(args, kws):
 
 
 def ast_params():
-    """the facts as far as the `ast` reader can see them; _Outside when a method is outside its fragment"""
-    out = {}
-    st = _find_class(_ST, "AsyncioTransportStreamSocketAdapter")
+    """(facts, reasons): the facts the `ast` reader can decide, and for the others why it cannot (outside its fragment)"""
+    out, why = {}, {}
 
     def calls_of(cnode, name):
         fn = _method(cnode, name)
@@ -670,29 +692,34 @@ def ast_params():
                 if not _is_limits_zero(a, k):
                     raise _Outside(f"{cnode.name}.__init__: set_write_buffer_limits with other arguments")
                 found = True
-        return found
+        if not found:
+            # the limits may be set by the code that builds the adapter: only the live transports can tell
+            raise _Outside(f"{cnode.name}.__init__ does not set the limits itself")
+        return True
 
-    out["stream_limits_zero"] = limits_in_init(st)
-    names = [m for m, _a, _k in calls_of(st, "send_all")]
-    if names != ["write"]:
-        raise _Outside(f"send_all: transport calls {names}")
-    seq = calls_of(st, "send_all_from_iterable")
-    names = [m for m, _a, _k in seq]
-    if names == ["writelines"]:
-        out["stream_iter_rechecks"] = False
-    elif names == ["writelines", "set_write_buffer_limits"] and _is_limits_zero(seq[1][1], seq[1][2]):
-        out["stream_iter_rechecks"] = True
-    else:
+    def iter_rechecks(st):
+        names = [m for m, _a, _k in calls_of(st, "send_all")]
+        if names != ["write"]:
+            raise _Outside(f"send_all: transport calls {names}")
+        seq = calls_of(st, "send_all_from_iterable")
+        names = [m for m, _a, _k in seq]
+        if names == ["writelines"]:
+            return False
+        if names == ["writelines", "set_write_buffer_limits"] and _is_limits_zero(seq[1][1], seq[1][2]):
+            return True
         raise _Outside(f"send_all_from_iterable: transport calls {names}")
-    de = _find_class(_DE, "DatagramEndpoint")
-    dl = _find_class(_DL, "DatagramListenerSocketAdapter")
-    for cnode, f in ((de, "sendto"), (dl, "send_to")):
-        names = [m for m, _a, _k in calls_of(cnode, f)]
-        if names != ["sendto"]:
-            raise _Outside(f"{cnode.name}.{f}: transport calls {names}")
-    out["dgram_endpoint_limits_zero"] = limits_in_init(de)
-    out["dgram_listener_limits_zero"] = limits_in_init(dl)
-    return out
+
+    def decide(fact, fn):
+        try:
+            out[fact] = fn()
+        except _Outside as exc:
+            why[fact] = str(exc)
+
+    decide("stream_limits_zero", lambda: limits_in_init(_find_class(_ST, "AsyncioTransportStreamSocketAdapter")))
+    decide("stream_iter_rechecks", lambda: iter_rechecks(_find_class(_ST, "AsyncioTransportStreamSocketAdapter")))
+    decide("dgram_endpoint_limits_zero", lambda: limits_in_init(_find_class(_DE, "DatagramEndpoint")))
+    decide("dgram_listener_limits_zero", lambda: limits_in_init(_find_class(_DL, "DatagramListenerSocketAdapter")))
+    return out, why
 
 
 class _RecTransport:
@@ -748,17 +775,24 @@ def behavioural_params():
     def bad(msg):
         raise runner.TranslateError("behavioural probe: " + msg)
 
-    class Proto:
-        def __init__(self, log):
-            self.log = log
+    from easynetwork.lowlevel.api_async.backend._asyncio.datagram.endpoint import DatagramEndpointProtocol
+    from easynetwork.lowlevel.api_async.backend._asyncio.datagram.listener import DatagramListenerProtocol
+    from easynetwork.lowlevel.api_async.backend._asyncio.stream.socket import StreamReaderBufferedProtocol
 
-        async def _drain(self):
-            self.log.append(("drain",))
+    # the REAL protocol classes (an adapter may use any of their methods); only the drain is replaced by a recorder
+    def recording(base, drain_name, **kw):
+        async def drain(self):
+            self.rec_log.append(("drain",))
 
-        writer_drain = _drain_helper = _drain
+        cls = type("Rec" + base.__name__, (base,), {drain_name: drain})
 
-        def _get_close_waiter(self):
-            return asyncio.get_running_loop().create_future()
+        def make(log, transport):
+            proto = cls(loop=asyncio.get_event_loop(), **kw)
+            proto.rec_log = log
+            proto.connection_made(transport)
+            return proto
+
+        return make
 
     def limits_zero(log, who):
         hits = [e for e in log if e[0] == "set_write_buffer_limits"]
@@ -772,8 +806,9 @@ def behavioural_params():
     with running() as loop:
         backend = AsyncIOBackend()
         log = []
-        adapter = AsyncioTransportStreamSocketAdapter(backend, _RecTransport(log), Proto(log))
-        out["stream_limits_zero"] = limits_zero(log, "stream adapter")
+        tr = _RecTransport(log)
+        adapter = AsyncioTransportStreamSocketAdapter(backend, tr, recording(StreamReaderBufferedProtocol, "writer_drain")(log, tr))
+        limits_zero(log, "stream adapter")
         del log[:]
         loop.run_until_complete(adapter.send_all(b"ab"))
         if [e[0] for e in log] != ["write", "drain"] or log[0][1] != b"ab":
@@ -791,16 +826,20 @@ def behavioural_params():
             bad(f"send_all_from_iterable wrote {log[0]}")
         adapter._AsyncioTransportStreamSocketAdapter__closing = True
         log = []
-        ep = DatagramEndpoint(_RecTransport(log, True), Proto(log), recv_queue=asyncio.Queue(), exception_queue=asyncio.Queue())
-        out["dgram_endpoint_limits_zero"] = limits_zero(log, "datagram endpoint")
+        tr = _RecTransport(log, True)
+        rq, eq = asyncio.Queue(), asyncio.Queue()
+        ep = DatagramEndpoint(tr, recording(DatagramEndpointProtocol, "_drain_helper", recv_queue=rq, exception_queue=eq)(log, tr),
+                              recv_queue=rq, exception_queue=eq)
+        limits_zero(log, "datagram endpoint")
         del log[:]
         loop.run_until_complete(ep.sendto(b"ab", "/peer"))
         if [e[0] for e in log] != ["sendto", "drain"]:
             bad(f"DatagramEndpoint.sendto did {log}")
         ep._DatagramEndpoint__transport.is_closing = lambda: True
         log = []
-        li = DatagramListenerSocketAdapter(backend, _RecTransport(log, True), Proto(log))
-        out["dgram_listener_limits_zero"] = limits_zero(log, "datagram listener")
+        tr = _RecTransport(log, True)
+        li = DatagramListenerSocketAdapter(backend, tr, recording(DatagramListenerProtocol, "writer_drain")(log, tr))
+        limits_zero(log, "datagram listener")
         del log[:]
         loop.run_until_complete(li.send_to(b"ab", "/peer"))
         if [e[0] for e in log] != ["sendto", "drain"]:
@@ -829,6 +868,26 @@ def behavioural_params():
 
 
 _PARAMS = None
+_LIMITS = {}
+
+
+def limits_of(kind, path=0):
+    """(high, low) of the LIVE transport of an adapter obtained through that construction path of the backend"""
+    if (kind, path) not in _LIMITS:
+        with running() as loop:
+            s = Session(loop, kind, 1, path)
+            try:
+                low, high = s.transport.get_write_buffer_limits()
+                _LIMITS[(kind, path)] = [high, low]
+            finally:
+                s.finish()
+    return _LIMITS[(kind, path)]
+
+
+def _limits_facts():
+    return {"stream_limits_zero": all(limits_of(K_SEND_ALL, p) == [0, 0] for p in PATHS[K_SEND_ALL]),
+            "dgram_endpoint_limits_zero": limits_of(K_DGRAM_EP) == [0, 0],
+            "dgram_listener_limits_zero": limits_of(K_DGRAM_LISTENER) == [0, 0]}
 
 
 def source_params():
@@ -839,12 +898,14 @@ def source_params():
 
     if _PARAMS is not None:
         return _PARAMS
-    beh = behavioural_params()
     try:
-        static = ast_params()
-        why = None
-    except _Outside as exc:
-        static, why = {}, str(exc)
+        beh = behavioural_params()
+        beh.update(_limits_facts())
+    except runner.TranslateError:
+        raise
+    except Exception as exc:          # a probe that cannot even run proves nothing: fail closed, do not crash the check
+        raise runner.TranslateError(f"behavioural probe crashed: {type(exc).__name__}: {exc}")
+    static, why = ast_params()
     prov = {}
     for k, v in beh.items():
         if k in static:
@@ -852,7 +913,7 @@ def source_params():
                 raise runner.TranslateError(f"{k}: the source reads {static[k]} but the probe on the real object says {v}")
             prov[k] = "ast+behavioural"
         else:
-            prov[k] = "behavioural" + (f" (ast reader: {why})" if why else " (interpreter fact)" if k.startswith("interp") else "")
+            prov[k] = "behavioural" + (" (interpreter fact)" if k.startswith("interp") else f" (ast reader: {why.get(k, 'not read')})")
     PROVENANCE = prov
     _PARAMS = beh
     return beh
@@ -885,21 +946,24 @@ def extra(ctx):
     known = {e["signature"] for e in runner.load_known(PROPERTY_ID)}
     report, broken = {}, set()
     for kind in (K_SEND_ALL, K_SEND_ITER, K_DGRAM_EP, K_DGRAM_LISTENER):
-        high, low, wl = config_of(kind)
-        ok = h_pause(kind)
-        report[KIND_NAMES[kind]] = dict(high=high, low=low, writelines_pauses=bool(wl), H_pause=ok)
-        if not ok and SIGNATURES.get(kind) not in known:
-            broken.add(kind)
-            ctx.problems.append(dict(kind="hypothesis", detail=f"H_pause does not hold for {KIND_NAMES[kind]}: "
-                                     f"write buffer limits (high={high}, low={low}), writelines pauses: {bool(wl)}"))
+        for path in PATHS[kind]:
+            high, low, wl = config_of(kind, path)
+            ok = h_pause(kind, path)
+            report[KIND_NAMES[kind] + (" via " + PATH_NAMES[path] if len(PATHS[kind]) > 1 else "")] = \
+                dict(high=high, low=low, writelines_pauses=bool(wl), H_pause=ok)
+            if not ok and SIGNATURES.get(kind) not in known:
+                broken.add((kind, path))
+                ctx.problems.append(dict(kind="hypothesis", detail=f"H_pause does not hold for {KIND_NAMES[kind]} obtained through "
+                                         f"{PATH_NAMES[path]}: write buffer limits (high={high}, low={low}), writelines pauses: {bool(wl)}"))
     # the configuration derived from the source (Gen/ParamsC20.v, used by the Props lemmas) must be the one observed
     try:
         sp = source_params()
         expect = {K_SEND_ALL: sp["stream_limits_zero"], K_SEND_ITER: sp["stream_limits_zero"],
                   K_DGRAM_EP: sp["dgram_endpoint_limits_zero"], K_DGRAM_LISTENER: sp["dgram_listener_limits_zero"]}
         for kind, zero in expect.items():
+            allzero = all(config_of(kind, p)[:2] == [0, 0] for p in PATHS[kind])
             high, low, wl = config_of(kind)
-            if (high == 0 and low == 0) != zero:
+            if allzero != zero:
                 ctx.problems.append(dict(kind="translator", detail=f"source says limits-zero={zero} for {KIND_NAMES[kind]} "
                                          f"but the transport reports (high={high}, low={low})"))
         wl_src = sp["interp_writelines_pauses"] or sp["stream_iter_rechecks"]
@@ -980,7 +1044,7 @@ def _aclose_state(acts):
     return st
 
 
-def _bfs(kind, ntasks, max_actions, budget):
+def _bfs(kind, ntasks, max_actions, budget, path=0):
     level = [([], [0, 0, 0, [0] * ntasks], 0)]
     count = 0
     while level:
@@ -993,7 +1057,7 @@ def _bfs(kind, ntasks, max_actions, budget):
             for a in _enabled(kind, snap, lost_done, any(x[0] in (A_CLOSE, A_ACLOSE) for x in acts), _aclose_state(acts), closed):
                 for tail in ([[A_SETTLE]], [[A_TICK], [A_SETTLE]]):
                     acts2 = acts + [a] + tail
-                    snaps, _, _ = execute(kind, ntasks, acts2)
+                    snaps, _, _ = execute(kind, ntasks, acts2, path=path)
                     count += 1
                     yield acts2
                     if count >= budget:
@@ -1003,7 +1067,7 @@ def _bfs(kind, ntasks, max_actions, budget):
         level = nxt
 
 
-def _random(kind, ntasks, rng, rounds):
+def _random(kind, ntasks, rng, rounds, path=0):
     acts, snap, lost_done = [], [0, 0, 0, [0] * ntasks], False
     for _ in range(rounds):
         was_closed = any(x[0] in (A_CLOSE, A_ACLOSE) for x in acts)
@@ -1033,16 +1097,18 @@ def _random(kind, ntasks, rng, rounds):
             continue
         acts += batch + rng.choice([[[A_SETTLE]], [[A_TICK]], [[A_TICK], [A_SETTLE]], [[A_TICK], [A_TICK]]])
         lost_done = lost_done or any(a[0] == A_LOST for a in batch)
-        snaps, _, _ = execute(kind, ntasks, acts)
+        snaps, _, _ = execute(kind, ntasks, acts, path=path)
         snap = snaps[-1]
     if not acts or acts[-1] != [A_SETTLE]:
         acts.append([A_SETTLE])
     return acts
 
 
-def _case(kind, ntasks, acts, tag):
-    snaps, _, _ = execute(kind, ntasks, acts)
+def _case(kind, ntasks, acts, tag, path=0):
+    snaps, _, _ = execute(kind, ntasks, acts, path=path)
     tags = [KIND_NAMES[kind], tag, f"tasks{ntasks}"]
+    if path:
+        tags.append("accepted-socket")
     for code, name in ((A_CANCEL, "cancel"), (A_LOST, "lost"), (A_CLOSE, "close"), (A_ACLOSE, "aclose"),
                        (A_CANCEL_ACLOSE, "aclose-cancelled")):
         if any(a[0] == code for a in acts):
@@ -1050,11 +1116,11 @@ def _case(kind, ntasks, acts, tag):
     parked = any(1 in s[3] and s[1] > 0 for s in snaps)
     if parked:
         tags.append("parked")
-    return dict(input=[kind, config_of(kind), ntasks, acts, deque_observable()], tags=tags, nontrivial=parked)
+    return dict(input=[kind, config_of(kind, path), ntasks, acts, deque_observable(), path], tags=tags, nontrivial=parked)
 
 
-def h_pause(kind):
-    high, low, wl = config_of(kind)
+def h_pause(kind, path=0):
+    high, low, wl = config_of(kind, path)
     return high == 0 and low == 0 and (wl == 1 or kind != K_SEND_ITER)
 
 
@@ -1078,8 +1144,26 @@ def cases(tier, rng, escalate):
     for kind in kinds:
         for ntasks in (1, 2):
             depth = (5 if thorough else 4) if kind == K_FLOW else (4 if thorough else 3)
-            for acts in _bfs(kind, ntasks, depth, 4000 if thorough else (900 if kind == K_FLOW else 500)):
+            for acts in _bfs(kind, ntasks, depth, 4000 if thorough else (900 if kind == K_FLOW else 450)):
                 yield _case(kind, ntasks, acts, "exhaustive")
+    # the other construction path of the stream adapter (sockets accepted by a listener)
+    for kind in (K_SEND_ALL, K_SEND_ITER):
+        for acts in _bfs(kind, 2, 4 if thorough else 3, 3000 if thorough else 250, path=1):
+            yield _case(kind, 2, acts, "exhaustive", path=1)
+    # several senders parked, some of them cancelled in the SAME loop iteration as (before / after) the event that wakes or
+    # fails the waiters: a cancelled waiter still sits in the deque ahead of / behind live ones
+    park = {K_FLOW: lambda t: [A_SEND, t]}
+    for kind in kinds:
+        mk = park.get(kind, lambda t: [A_SEND, t, 3, 0])
+        pre = ([[A_PAUSE]] if kind == K_FLOW else []) + [mk(0), mk(1), mk(2), [A_SETTLE]]
+        events = [[A_RESUME], [A_LOST, 0], [A_LOST, 1]] if kind == K_FLOW else [[A_READY, 1 << 16], [A_LOST, 0], [A_LOST, 1]]
+        for ev in events:
+            for victims in ([0], [1], [2], [0, 1], [0, 2], [1, 2]):
+                cancels = [[A_CANCEL, v] for v in victims]
+                for batch in (cancels + [ev], [ev] + cancels):
+                    for tail in ([[A_SETTLE]], [[A_TICK], [A_SETTLE]]):
+                        for path in PATHS.get(kind, (0,)):
+                            yield _case(kind, 3, pre + batch + tail, "scenario", path=path)
     # close paths: a parked sender, aclose() in a task, that task cancelled, then the connection dies / is flushed
     S, T = [A_SETTLE], [A_TICK]
     for kind in (K_SEND_ALL, K_SEND_ITER, K_DGRAM_EP, K_DGRAM_LISTENER):
@@ -1095,6 +1179,7 @@ def cases(tier, rng, escalate):
                 yield _case(kind, 2, [[A_SEND, 0, 3, 0], S, [A_CLOSE], S] + late + ending, "scenario")
     for _ in range(8000 if thorough else 1200):
         kind = rng.choice(kinds)
+        path = rng.choice(PATHS.get(kind, (0,)))
         ntasks = rng.choice([1, 2, 3, 3])
-        acts = _random(kind, ntasks, rng, rng.randrange(3, 12))
-        yield _case(kind, ntasks, acts, "random")
+        acts = _random(kind, ntasks, rng, rng.randrange(3, 12), path=path)
+        yield _case(kind, ntasks, acts, "random", path=path)
